@@ -248,6 +248,47 @@ theorem invalid_event_never_written (ig : Bool) (types sources : List String) (c
   have := mediator_writes_only_accepted ig types sources cur ops _ hm i t src false rfl
   cases this
 
+/-! ### the same, when `ignore_invalid_events()` is called in mid session -/
+
+theorem mrunF_coherent : ∀ (ops : List (Bool × MOp)) (s : MState), Coherent s → Coherent (mrunF s ops)
+  | [], s, h => h
+  | op :: ops, s, h => by
+    simp only [mrunF, List.foldl_cons]
+    exact mrunF_coherent ops _ (mstep_coherent op.1 s op.2 h)
+
+/-- C17: the output of a mediator parses, holds only accepted events and has every event preceded by
+its ontology, also when invalid events start (or stop) being ignored at any point of the session -/
+theorem mediator_stream_any_setting (reg : Registry) (types sources : List String) (cur : String)
+    (ops : List (Bool × MOp)) :
+    let s := mclose (mrunF { types := types, sources := sources, curSource := cur } ops)
+    (∃ p', prun reg {} s.w.out = (p', none) ∧ Agree reg s.w p') ∧
+    (∀ it ∈ s.w.out, ∀ i t src g, it = Item.event i t src g → g = true) ∧ Preceded s.w.out := by
+  intro s
+  have hc : Coherent s := mclose_coherent _ (mrunF_coherent ops _ rfl)
+  refine ⟨?_, ?_, ?_⟩
+  · have := written_stream_parses_from_start reg true (fun _ => rfl) s.issued
+    rw [← hc] at this
+    exact this
+  · rw [hc]
+    exact only_valid_events_written true rfl s.issued {} (by intro it hit; cases hit)
+  · rw [hc]
+    exact (wrun_invariants _ {} ⟨by intro t; simp [typesOf], by intro s; simp [sourcesOf]⟩
+      (by intro pre i t s g post h; simp at h)).2
+
+/-- ... and an invalid event in the middle of a record does not keep the later events of that record
+from being written once invalid events are ignored -/
+theorem ignored_event_does_not_end_the_record (s : MState) (e : GenEvent) (es : List GenEvent) (hg : e.gateOk = false) :
+    writeEvents true s (e :: es) = writeEvents true (writeEvent true s e).1 es := by
+  have := (skipped_or_raised true s e hg).1
+  simp only [if_true] at this
+  simp only [writeEvents]
+  cases hx : writeEvent true s e with
+  | mk a b =>
+    rw [hx] at this
+    simp only at this
+    subst this
+    rfl
+
 /-! ### Non-vacuity -/
 
 example : (mclose (mrun false { types := ["t"], sources := ["/a/"], curSource := "/a/" }
